@@ -86,6 +86,11 @@ fn c01() {
     { let key = lkv(PasetoSymmetricKey::<V4, Local>::from(key32(3))); let big = "z".repeat(66_000);
       let mut pb = PasetoBuilder::<V4, Local>::default(); pb.set_claim(CustomClaim::try_from(("blob", big.as_str())).unwrap());
       match pb.build(&key) { Ok(t) => { let r = PasetoParser::<V4, Local>::default().parse(lk(&t), key); if r.as_ref().map(|j| j["blob"] != big.as_str()).unwrap_or(true) { return wit(format!("C01 PasetoBuilder/PasetoParser<V4,Local> with a 66000-byte claim does not round-trip: {:?}", r.map(|_| "Ok(other)").map_err(|e| e.to_string()))); } } Err(e) => return wit(format!("C01 PasetoBuilder<V4,Local>::build with a 66000-byte claim failed: {e}")) } }
+    // v2.local with a 32-byte nonce seed (the other public constructor of PasetoNonce<V2,Local>): "any nonce"
+    { let k = PasetoSymmetricKey::<V2, Local>::from(key32(1)); let seed = Key::<32>::from([2u8; 32]);
+      for m in ["", "{\"a\":1}", "msg"] { let mut b = Paseto::<V2, Local>::builder(); b.set_payload(Payload::from(m));
+        match b.try_encrypt(&k, &PasetoNonce::<V2, Local>::from(&seed)) { Err(e) => return wit(format!("C01 v2.local try_encrypt of {m:?} with a nonce built from a 32-byte seed (PasetoNonce::<V2,Local>::from(&Key<32>)) fails: {e:?}")),
+            Ok(t) => match Paseto::<V2, Local>::try_decrypt(&t, &k, None) { Ok(p) if p == m => {}, o => return wit(format!("C01 v2.local token of {m:?} built with a 32-byte nonce seed decrypts to {o:?}")) } } } }
     layers_roundtrip(); layer_setter_orders("C01"); claims_between_builds("C01");
 }
 #[cfg(feature = "main_set")]
@@ -264,6 +269,90 @@ fn c04() {
     for v in 1..=4u8 { let ta = local::enc(v, 1, 2, "{\"a\":1}", &None, &None, false).unwrap_or_default(); let tb = local::enc(v, 9, 2, "{\"a\":1}", &None, &None, false).unwrap_or_default();
         for (tok, own, other) in [(&ta, 1u8, 9u8), (&tb, 9, 1), (&ta, 1, 9)] { if local::dec(v, own, tok, &None, &None).is_err() { return wit(format!("C01 v{v}.local token does not decrypt under its own key [7,{own},..] after other keys were used in the process")); }
             if local::dec(v, other, tok, &None, &None).is_ok() { return wit(format!("C04 v{v}.local token built under key [7,{own},..] decrypts under key [7,{other},..] once both keys have been used in the process")); } } }
+}
+// every way of constructing a Key (by value, by reference to an array, from a slice, from hex) must yield the same key material:
+// a token built under it equals the reference token (C01/C08) and no single-bit neighbour of the key, built the same way, opens it (C04)
+#[cfg(feature = "main_set")]
+fn key_constructors(pid: &str) {
+    if !["C01", "C04", "C08"].contains(&pid) { return; }
+    let mut kb = [0u8; 32]; for (i, b) in kb.iter_mut().enumerate() { *b = (i as u8).wrapping_mul(7).wrapping_add(3); }
+    fn hexs(b: &[u8]) -> String { b.iter().map(|x| format!("{x:02x}")).collect() }
+    let forms: Vec<(&str, Box<dyn Fn(&[u8; 32]) -> Option<Key<32>>>)> = vec![
+        ("Key::from([u8; 32])", Box::new(|b| Some(Key::<32>::from(*b)))),
+        ("Key::from(&[u8; 32])", Box::new(|b| Some(Key::<32>::from(b)))),
+        ("Key::from(&[u8])", Box::new(|b| Some(Key::<32>::from(&b[..])))),
+        ("Key::try_from(hex)", Box::new(|b| Key::<32>::try_from(hexs(b).as_str()).ok())),
+    ];
+    let n = Key::<32>::from([2u8; 32]); let n24 = Key::<24>::from([2u8; 24]);
+    for (what, mk) in &forms { for v in 1..=4u8 { for m in ["", "{\"a\":1}"] {
+        macro_rules! enc { ($V:ty, $nonce:expr) => {{ match mk(&kb) { None => Err("key constructor failed".to_string()), Some(k) => {
+            let key = PasetoSymmetricKey::<$V, Local>::from(k); let mut b = Paseto::<$V, Local>::builder(); b.set_payload(Payload::from(m)); b.try_encrypt(&key, &$nonce).map_err(|e| format!("{e:?}")) } } }} }
+        let t = match v { 1 => enc!(V1, PasetoNonce::<V1, Local>::from(&n)), 2 => enc!(V2, PasetoNonce::<V2, Local>::from(&n24)), 3 => enc!(V3, PasetoNonce::<V3, Local>::from(&n)), _ => enc!(V4, PasetoNonce::<V4, Local>::from(&n)) };
+        let want = match v { 1 => R::v1l(&kb, &[2; 32], m.as_bytes(), b""), 2 => R::v2l(&kb, &[2; 24], m.as_bytes(), b""), 3 => R::v3l(&kb, &[2; 32], m.as_bytes(), b"", b""), _ => R::v4l(&kb, &[2; 32], m.as_bytes(), b"", b"") };
+        let t = match t { Ok(t) => t, Err(e) => { if pid != "C04" { return wit(format!("{pid} v{v}.local encryption of {m:?} under a key built with {what} fails: {e}")); } continue; } };
+        if pid != "C04" && t != want { return wit(format!("{pid} v{v}.local token of {m:?} under the key [3,10,17,..] built with {what} is {t}, the specification gives {want}")); }
+        if pid == "C04" { for byte in [0usize, 1, 15, 16, 30, 31] { for bit in [0u8, 7] {
+            let mut nb = kb; nb[byte] ^= 1 << bit;
+            for tok in [&t, &want] {
+            let Some(k2) = mk(&nb) else { continue };
+            let r = match v { 1 => Paseto::<V1, Local>::try_decrypt(tok, &PasetoSymmetricKey::<V1, Local>::from(k2), None), 2 => Paseto::<V2, Local>::try_decrypt(tok, &PasetoSymmetricKey::<V2, Local>::from(k2), None),
+                              3 => Paseto::<V3, Local>::try_decrypt(tok, &PasetoSymmetricKey::<V3, Local>::from(k2), None, None), _ => Paseto::<V4, Local>::try_decrypt(tok, &PasetoSymmetricKey::<V4, Local>::from(k2), None, None) };
+            if let Ok(p) = r { return wit(format!("C04 a v{v}.local token of {m:?} built under key K=[3,10,17,..] decrypts under K with bit {bit} of byte {byte} flipped, both keys built with {what} -> {p:?}")); } } } } }
+    }}}
+    // Ed25519 keys through the by-reference constructors
+    let (kp, pk) = R::ed_keypair(9);
+    let sk_forms: Vec<(&str, Key<64>)> = vec![("Key::from([u8; 64])", Key::<64>::from(kp)), ("Key::from(&[u8; 64])", Key::<64>::from(&kp)), ("Key::from(&[u8])", Key::<64>::from(&kp[..]))];
+    for (what, sk) in &sk_forms { let mut b = Paseto::<V4, Public>::builder(); b.set_payload(Payload::from("{}"));
+        match b.try_sign(&PasetoAsymmetricPrivateKey::<V4, Public>::from(sk)) {
+            Err(e) => { if pid != "C04" { return wit(format!("{pid} v4.public signing under a private key built with {what} fails: {e:?}")); } }
+            Ok(t) => { for (pwhat, pkk) in [("Key::from([u8; 32])", Key::<32>::from(pk)), ("Key::from(&[u8; 32])", Key::<32>::from(&pk)), ("Key::from(&[u8])", Key::<32>::from(&pk[..]))] {
+                if pid != "C04" && Paseto::<V4, Public>::try_verify(&t, &PasetoAsymmetricPublicKey::<V4, Public>::from(&pkk), None, None).is_err() { return wit(format!("{pid} v4.public token signed with a key built with {what} does not verify under the matching public key built with {pwhat}")); }
+                if pid == "C04" { for byte in [0usize, 31] { let mut nb = pk; nb[byte] ^= 1; let nk = Key::<32>::from(&nb);
+                    if Paseto::<V4, Public>::try_verify(&t, &PasetoAsymmetricPublicKey::<V4, Public>::from(&nk), None, None).is_ok() { return wit(format!("C04 v4.public token verifies under the signer's public key with bit 0 of byte {byte} flipped (built with Key::from(&[u8; 32]))")); } } } } } } }
+}
+// a parser's verdict depends on its configuration and the token only, not on what it parsed before: every configuration sequence
+// (up to three steps) is run once with a parse after every step and once on a fresh parser; the final verdicts must agree (C15: expected
+// claims incl. the bulk form, C16: validators incl. the bulk form)
+#[cfg(feature = "main_set")]
+fn parser_history(pid: &str) {
+    use std::collections::HashMap; use std::sync::atomic::{AtomicUsize, Ordering};
+    static RUNS: AtomicUsize = AtomicUsize::new(0);
+    let (t, key) = v4tok("{\"aud\":\"x\",\"n\":5,\"role\":\"admin\"}"); let t = lk(&t);
+    type G = GenericParser<'static, 'static, V4, Local>;
+    fn rej(_k: &str, _v: &serde_json::Value) -> Result<(), PasetoClaimError> { RUNS.fetch_add(1, Ordering::SeqCst); Err(PasetoClaimError::CustomValidation("x".into())) }
+    fn acc(_k: &str, _v: &serde_json::Value) -> Result<(), PasetoClaimError> { RUNS.fetch_add(1, Ordering::SeqCst); Ok(()) }
+    fn bulk(k: &str, v: serde_json::Value) -> HashMap<String, Box<dyn erased_serde::Serialize>> { let mut m: HashMap<String, Box<dyn erased_serde::Serialize>> = HashMap::new(); m.insert(k.to_string(), Box::new(v)); m }
+    let claim_steps: Vec<(&str, Box<dyn Fn(&mut G)>)> = vec![
+        ("check_claim(aud=x)", Box::new(|p: &mut G| { p.check_claim(AudienceClaim::from("x")); })),
+        ("check_claim(aud=y)", Box::new(|p: &mut G| { p.check_claim(AudienceClaim::from("y")); })),
+        ("check_claim(n=5)", Box::new(|p: &mut G| { p.check_claim(CustomClaim::try_from(("n", 5)).unwrap()); })),
+        ("extend_check_claims({n: 5})", Box::new(|p: &mut G| { p.extend_check_claims(bulk("n", serde_json::json!(5))); })),
+        ("extend_check_claims({n: 6})", Box::new(|p: &mut G| { p.extend_check_claims(bulk("n", serde_json::json!(6))); })),
+        ("extend_check_claims({role: \"user\"})", Box::new(|p: &mut G| { p.extend_check_claims(bulk("role", serde_json::json!("user"))); })),
+        ("extend_check_claims({missing: 1})", Box::new(|p: &mut G| { p.extend_check_claims(bulk("missing", serde_json::json!(1))); })),
+    ];
+    let val_steps: Vec<(&str, Box<dyn Fn(&mut G)>)> = vec![
+        ("validate_claim(n, rejecting)", Box::new(|p: &mut G| { p.validate_claim(CustomClaim::try_from("n").unwrap(), &rej); })),
+        ("validate_claim(n, accepting)", Box::new(|p: &mut G| { p.validate_claim(CustomClaim::try_from("n").unwrap(), &acc); })),
+        ("validate_claim(aud, accepting)", Box::new(|p: &mut G| { p.validate_claim(AudienceClaim::from("x"), &acc); })),
+        ("extend_validation_claims({role: rejecting})", Box::new(|p: &mut G| { let mut m: ValidatorMap = HashMap::new(); m.insert("role".to_string(), Box::new(rej)); p.extend_validation_claims(m); })),
+        ("extend_validation_claims({role: accepting})", Box::new(|p: &mut G| { let mut m: ValidatorMap = HashMap::new(); m.insert("role".to_string(), Box::new(acc)); p.extend_validation_claims(m); })),
+        ("extend_validation_claims({absent: rejecting})", Box::new(|p: &mut G| { let mut m: ValidatorMap = HashMap::new(); m.insert("absent".to_string(), Box::new(rej)); p.extend_validation_claims(m); })),
+        ("check_claim(aud=x)", Box::new(|p: &mut G| { p.check_claim(AudienceClaim::from("x")); })),
+    ];
+    let steps = if pid == "C15" { &claim_steps } else { &val_steps };
+    let n = steps.len();
+    for len in 1..=3u32 { for code in 0..n.pow(len) {
+        let mut idx = Vec::new(); let mut c = code; for _ in 0..len { idx.push(c % n); c /= n; }
+        let mut a = G::default(); let _ = a.parse(t, key);
+        for &i in &idx { (steps[i].1)(&mut a); let _ = a.parse(t, key); }
+        let mut b = G::default(); for &i in &idx { (steps[i].1)(&mut b); }
+        RUNS.store(0, Ordering::SeqCst); let ra = a.parse(t, key).map_err(|e| format!("{e:?}")); let runs_a = RUNS.swap(0, Ordering::SeqCst);
+        let rb = b.parse(t, key).map_err(|e| format!("{e:?}")); let runs_b = RUNS.swap(0, Ordering::SeqCst);
+        let desc: Vec<&str> = idx.iter().map(|&i| steps[i].0).collect();
+        if ra.is_ok() != rb.is_ok() || (pid == "C16" && ra.is_ok() && runs_a != runs_b) {
+            return wit(format!("{pid} GenericParser configured with {} on payload {{aud:x, n:5, role:admin}}: a fresh parser gives {:?} ({runs_b} validator call(s)); the same configuration applied to a parser that parsed the token after every step gives {:?} ({runs_a} validator call(s))", desc.join(", "), rb.map(|_| "Ok"), ra.map(|_| "Ok"))); }
+    }}
 }
 #[cfg(feature = "main_set")]
 fn footer_rebinding(pid: &str) {
@@ -597,6 +686,14 @@ fn c11_c12(which: &str) {
 fn c13() {
     case_variant_claims("C13");
     let key = lkv(PasetoSymmetricKey::<V4, Local>::from(key32(1)));
+    // iat/nbf/exp are fixed at the builder's creation, not at build time
+    { let before = time::OffsetDateTime::now_utc(); let mut b = PasetoBuilder::<V4, Local>::default(); let created = time::OffsetDateTime::now_utc();
+      std::thread::sleep(std::time::Duration::from_millis(1300));
+      if let Ok(t) = b.build(&key) { if let Ok(j) = GenericParser::<V4, Local>::default().parse(lk(&t), key) {
+          let pt = |v: &serde_json::Value| time::OffsetDateTime::parse(v.as_str().unwrap_or(""), &time::format_description::well_known::Rfc3339);
+          if let (Ok(e), Ok(i), Ok(n)) = (pt(&j["exp"]), pt(&j["iat"]), pt(&j["nbf"])) {
+              if i > created + time::Duration::milliseconds(300) || n > created + time::Duration::milliseconds(300) || i < before - time::Duration::seconds(1) || e - i != time::Duration::hours(1) {
+                  return wit(format!("C13 PasetoBuilder created at {created}, built 1.3 s later: iat = {i}, nbf = {n}, exp = {e} (iat and nbf must be the creation time, exp one hour later)")); } } } } }
     let parse = |t: &str| GenericParser::<V4, Local>::default().parse(t, &key).unwrap();
     // ops: 0=set exp, 1=set custom, 2=ack, 3=footer, 4=build, 5=set nbf, 6=set iat
     let far = "2999-01-01T00:00:00Z";
@@ -676,6 +773,16 @@ fn c14() {
     { let mut b = GenericBuilder::<V4, Local>::default(); for k in ["Data", "data", "DATA", "Sub"] { b.set_claim(CustomClaim::try_from((k, 1)).unwrap()); } b.set_claim(SubjectClaim::from("s")); b.remove_claim("data");
       if let Ok(t) = b.try_encrypt(&key) { match GenericParser::<V4, Local>::default().parse(lk(&t), key) { Ok(j) => { if j != json!({"Data": 1, "DATA": 1, "Sub": 1, "sub": "s"}) { return wit(format!("C14 claims Data, data, DATA, Sub, sub were set and only `data` removed, but the parsed token holds {j}")); } } Err(e) => return wit(format!("C14 parse failed after remove_claim: {e}")) } } }
     claims_between_builds("C14"); case_variant_claims("C14");
+    // model-based: every sequence up to length 5 over {set(a,1), set(a,2), set(b,1), remove(a), remove(b), build} against a map
+    { let ops = 6usize; for len in 1..=5u32 { for code in 0..ops.pow(len) {
+        let mut b = GenericBuilder::<V4, Local>::default(); let mut model: std::collections::BTreeMap<&str, i64> = Default::default(); let mut c = code; let mut desc = Vec::new();
+        for _ in 0..len { let op = c % ops; c /= ops;
+            match op { 0 => { b.set_claim(CustomClaim::try_from(("a", 1)).unwrap()); model.insert("a", 1); desc.push("set(a,1)"); } 1 => { b.set_claim(CustomClaim::try_from(("a", 2)).unwrap()); model.insert("a", 2); desc.push("set(a,2)"); }
+                       2 => { b.set_claim(CustomClaim::try_from(("b", 1)).unwrap()); model.insert("b", 1); desc.push("set(b,1)"); } 3 => { b.remove_claim("a"); model.remove("a"); desc.push("remove(a)"); }
+                       4 => { b.remove_claim("b"); model.remove("b"); desc.push("remove(b)"); } _ => { let _ = b.try_encrypt(&key); desc.push("build"); } } }
+        let want = serde_json::to_value(&model).unwrap();
+        match b.try_encrypt(&key) { Ok(t) => match GenericParser::<V4, Local>::default().parse(lk(&t), key) { Ok(j) => { if j != want { return wit(format!("C14 GenericBuilder after {} then build: the parsed token holds {j}, a map of the calls gives {want}", desc.join(", "))); } } Err(e) => return wit(format!("C14 parse failed after {}: {e}", desc.join(", "))) },
+            Err(e) => return wit(format!("C14 build failed after {}: {e}", desc.join(", "))) } } } }
     // two keys that differ only by an invisible code point stay two members
     { let mut b = GenericBuilder::<V4, Local>::default(); b.set_claim(CustomClaim::try_from(("dup", 1)).unwrap()); b.set_claim(CustomClaim::try_from(("dup\u{feff}", 2)).unwrap());
       if let Ok(t) = b.try_encrypt(&key) { match GenericParser::<V4, Local>::default().parse(lk(&t), key) { Ok(j) => { if j != json!({"dup": 1, "dup\u{feff}": 2}) { return wit(format!("C14 claims dup=1 and dup<U+FEFF>=2 were set but the parsed token holds {j}")); } } Err(e) => return wit(format!("C14 parse failed for keys differing by U+FEFF: {e}")) } } }
@@ -825,6 +932,19 @@ fn c16() {
       let mut bad = t.clone(); bad.pop(); bad.push('A'); let _ = p.parse(lk(&bad), key); let wrong = lkv(PasetoSymmetricKey::<V4, Local>::from(key32(9))); let _ = p.parse(lk(&t), wrong);
       if CALLS.load(Ordering::SeqCst) != 0 { return wit("C16 a validator ran on a token that did not authenticate".into()); }
       let _ = p.parse(lk(&t), key); if CALLS.load(Ordering::SeqCst) != 1 { return wit(format!("C16 accepting validator ran {} times on a successful parse", CALLS.load(Ordering::SeqCst))); } }
+    // a token whose header names another protocol has not authenticated for this parser: no validator call, no success
+    { let ts = v4tok("{\"sub\":\"alice\"}").0;
+      for other in ["v3.local.", "v2.local.", "v1.local.", "v4.public.", "v2.public.", "v5.local.", "v4.loca1.", "V4.local."] { let tt = lk(&ts.replacen("v4.local.", other, 1));
+        for layer in 0..2 { CALLS.store(0, Ordering::SeqCst);
+          let ok = if layer == 0 { let mut p = GenericParser::<V4, Local>::default(); p.validate_claim(SubjectClaim::from("alice"), &accept); p.parse(tt, key).is_ok() } else { let mut p = PasetoParser::<V4, Local>::default(); p.validate_claim(SubjectClaim::from("alice"), &accept); p.parse(tt, key).is_ok() };
+          if ok || CALLS.load(Ordering::SeqCst) != 0 { return wit(format!("C16 {}<V4,Local> given an authentic v4.local token relabelled {other:?}: accepted = {ok}, validator ran {} time(s) (the token is not a v4.local token: no validator may run)", if layer == 0 { "GenericParser" } else { "PasetoParser" }, CALLS.load(Ordering::SeqCst))); } } }
+      let (kp, pk) = R::ed_keypair(9); let k64 = lkv(Key::<64>::from(kp)); let k32 = lkv(Key::<32>::from(pk)); let pkk = lkv(PasetoAsymmetricPublicKey::<V4, Public>::from(k32));
+      let mut b = GenericBuilder::<V4, Public>::default(); b.set_claim(SubjectClaim::from("alice"));
+      if let Ok(tp) = b.try_sign(&PasetoAsymmetricPrivateKey::<V4, Public>::from(k64)) {
+        for other in ["v2.public.", "v4.local.", "v3.public.", "v1.public.", "v5.public."] { let tt = lk(&tp.replacen("v4.public.", other, 1));
+          for layer in 0..2 { CALLS.store(0, Ordering::SeqCst);
+            let ok = if layer == 0 { let mut p = GenericParser::<V4, Public>::default(); p.validate_claim(SubjectClaim::from("alice"), &accept); p.parse(tt, pkk).is_ok() } else { let mut p = PasetoParser::<V4, Public>::default(); p.validate_claim(SubjectClaim::from("alice"), &accept); p.parse(tt, pkk).is_ok() };
+            if ok || CALLS.load(Ordering::SeqCst) != 0 { return wit(format!("C16 {}<V4,Public> given an authentic v4.public token relabelled {other:?}: accepted = {ok}, validator ran {} time(s)", if layer == 0 { "GenericParser" } else { "PasetoParser" }, CALLS.load(Ordering::SeqCst))); } } } } }
     { let (kp, pk) = R::ed_keypair(9); let (_kq, pq) = R::ed_keypair(10); let k64 = lkv(Key::<64>::from(kp)); let k32 = lkv(Key::<32>::from(pk)); let kother = lkv(Key::<32>::from(pq));
       macro_rules! pubcase { ($V:ty, $name:expr) => {{
           let mut b = GenericBuilder::<$V, Public>::default(); b.set_claim(SubjectClaim::from("alice"));
@@ -918,7 +1038,8 @@ fn c18() {
         chk!(ExpirationClaim); chk!(NotBeforeClaim); chk!(IssuedAtClaim);
     }
     std::panic::set_hook(Box::new(|_| {}));
-    for b in ["ab\u{20ac}", "abc\u{e9}", "\u{e9}t\u{e9} 2019", "\u{65e5}\u{672c}\u{8a9e}", "2019\u{2212}01-01", "20\u{e9}9-01-01T00:00:00Z", "\u{1F511}", "a\u{1F511}b", "2019-01-01T00:00:00\u{e9}"] {
+    let long1 = format!("a{}", "\u{e9}".repeat(40)); let long2 = "\u{e9}".repeat(100); let long3 = format!("{}\u{1F511}{}", "x".repeat(46), "y".repeat(30)); let long4 = format!("{}\u{20ac}", "x".repeat(254)); let long5 = format!("2019-01-01T00:00:00Z{}", "\u{e9}".repeat(70));
+    for b in [long1.as_str(), long2.as_str(), long3.as_str(), long4.as_str(), long5.as_str(), "ab\u{20ac}", "abc\u{e9}", "\u{e9}t\u{e9} 2019", "\u{65e5}\u{672c}\u{8a9e}", "2019\u{2212}01-01", "20\u{e9}9-01-01T00:00:00Z", "\u{1F511}", "a\u{1F511}b", "2019-01-01T00:00:00\u{e9}"] {
         if !no_panic(AssertUnwindSafe(|| { let _ = ExpirationClaim::try_from(b); let _ = NotBeforeClaim::try_from(b); let _ = IssuedAtClaim::try_from(b); let _ = ExpirationClaim::try_from(b.to_string()); let _ = NotBeforeClaim::try_from(b.to_string()); let _ = IssuedAtClaim::try_from(b.to_string()); })) { return wit(format!("C18 a time claim constructor PANICS on {b:?} instead of returning an error")); }
         if !no_panic(AssertUnwindSafe(|| { let _ = CustomClaim::try_from(b); let _ = CustomClaim::try_from((b, 1)); let _ = CustomClaim::try_from((b.to_string(), 1)); })) { return wit(format!("C18 a CustomClaim constructor PANICS on key {b:?}")); } }
     for b in bad { if ExpirationClaim::try_from(b).is_ok() || NotBeforeClaim::try_from(b).is_ok() || IssuedAtClaim::try_from(b).is_ok() || ExpirationClaim::try_from(b.to_string()).is_ok() || NotBeforeClaim::try_from(b.to_string()).is_ok() || IssuedAtClaim::try_from(b.to_string()).is_ok() { return wit(format!("C18 a time claim constructor accepts {b:?}, which does not start with an ISO 8601 date")); } }
@@ -1142,11 +1263,11 @@ fn main() {
     #[cfg(feature = "main_set")]
     match pid.as_str() {
         "C01" => c01(), "C02" => c02(), "C03" => c03(), "C04" => c04(), "C05" => c05(), "C06" => c06(), "C07" => c07(), "C08" => c08(), "C09" => c09(), "C10" => c10(),
-        "C11" => c11_c12("C11"), "C12" => c11_c12("C12"), "C13" => c13(), "C14" => c14(), "C15" => c15(), "C16" => c16(), "C17" => { c17(); c17_time_claims() }, "C18" => c18(),
+        "C11" => c11_c12("C11"), "C12" => c11_c12("C12"), "C13" => c13(), "C14" => c14(), "C15" => { c15(); parser_history("C15") }, "C16" => { c16(); parser_history("C16") }, "C17" => { c17(); c17_time_claims() }, "C18" => c18(),
         _ => {}
     }
     #[cfg(feature = "main_set")]
-    layer_matrix(&pid);
+    { key_constructors(&pid); layer_matrix(&pid); }
     #[cfg(feature = "v3pub_set")]
     v3pub(&pid);
 }
